@@ -12,6 +12,7 @@ import PhyVerif.Driver.C06
 import PhyVerif.Driver.C11
 import PhyVerif.Driver.C09
 import PhyVerif.Driver.C08
+import PhyVerif.Driver.C05
 open Lean PhyVerif.Driver
 
 def dispatch (j : Json) : R Json := do
@@ -32,6 +33,7 @@ def dispatch (j : Json) : R Json := do
   | "C12" => runC12 op j
   | "C09" => runC09 op j
   | "C08" => runC08 op j
+  | "C05" => runC05 op j
   | _ => .error s!"unknown property {p}"
 
 def handle (line : String) : String :=
